@@ -391,12 +391,17 @@ def gen_case(rng: random.Random) -> dict:
         else:
             pool = []
             if c["hasSeg"]:
-                pool += ["pos", "area", "iou", "centroid"] + (["circularity", "perimeter"] if c["ndim"] == 3 else [])
+                pk = "pos"
+                if c["prebuilt"] is not None and isinstance(c["prebuilt"]["pos"], str):
+                    pk = c["prebuilt"]["pos"]
+                pool += [pk, "area", "iou"] + (["circularity", "perimeter"] if c["ndim"] == 3 else [])
             if c["solution"] or any(p[0] == "ft" for p in posts):
-                pool += [g_track, g_lin, "tracklet_id", "lineage_id"]
-            pool += ["track_id"]
-            if rng.random() < 0.15:
-                pool += ["bogus"]
+                if c["prebuilt"] is None:
+                    pool += [g_track, g_lin]
+                else:
+                    pool += [c["prebuilt"]["trk"] or "tracklet_id", c["prebuilt"]["lin"] or "lineage_id"]
+            if rng.random() < 0.2 or not pool:
+                pool += [rng.choice(["bogus", "track_id", "tracklet_id", "centroid", "lineage_id"])]
             pool = list(dict.fromkeys(pool))
             ks = rng.sample(pool, min(len(pool), rng.choice([1, 1, 2, 3])))
             posts.append(["en", ks, rng.random() < 0.7])
@@ -474,6 +479,7 @@ def _oracle(t, c: dict, static_fresh: set | None, prebuilt_keys: set | None, ids
     if miss:
         bad.append(("position", f"position key(s) {miss} not registered (features {sorted(reg)})"))
     if isinstance(t, SolutionTracks) and t.graph.number_of_nodes() > 0 and ids_expected:
+        _REC["ids_checked"] = _REC.get("ids_checked", 0) + 1
         ta = t.track_annotator
         tk = ta.tracklet_key
         if tk not in ta.features:
@@ -655,6 +661,10 @@ def construct_cases(prop: str, rng: random.Random, n: int, res) -> list[Failure]
         if len(res.samples) < 2:
             res.samples.append({"construct": {k: v for k, v in c.items() if k not in ("boxes",)}})
         line = encode(c)
+        if c["wild"]:
+            # colliding key names (a tracklet key called "lineage_id" …) are generated to validate the
+            # model only: the properties say nothing about such configurations
+            findings = []
         for tag, what in findings:
             sig = f"{prop}|construct|{tag}"
             if sig not in seen:
@@ -664,6 +674,7 @@ def construct_cases(prop: str, rng: random.Random, n: int, res) -> list[Failure]
         cases.append(c)
         lines.append(line)
         reals.append(real)
+    res.count("construct:oracle-ids-evaluated", _REC.pop("ids_checked", 0))
     outs = Driver().run(lines) if lines else []
     for c, line, real, model in zip(cases, lines, reals, outs):
         res.compared_steps += 1
